@@ -647,8 +647,31 @@ func (f *Flooder) WithdrawLocalRoutes() {
 	}
 }
 
+// replayKey identifies one advertisement as it was received. A full-table
+// replay re-emits the stored routes grouped by (origin, sequence, path), each
+// group under the origin's own sequence number and with the path it arrived
+// on. A replay must never carry a sequence number taken from the replaying
+// agent's counter: receivers would store it, reject the origin's later
+// genuine announcements as older, and let the routes age out.
+type replayKey struct {
+	origin identity.AgentID
+	seq    uint64
+	path   string
+}
+
+// replayKeyFor returns the replay group of a stored route.
+func (f *Flooder) replayKeyFor(origin identity.AgentID, seq uint64, path []identity.AgentID) replayKey {
+	if origin == f.localID {
+		// Our own routes form one group that is re-originated with a fresh
+		// sequence number of our own.
+		return replayKey{origin: origin}
+	}
+	return replayKey{origin: origin, seq: seq, path: string(protocol.EncodePath(path))}
+}
+
 // SendFullTable sends the full routing table to a newly connected peer.
-// Routes are grouped by origin agent and sent with their original path preserved.
+// Routes are grouped by origin agent, sequence and path, and sent with their
+// original sequence and path preserved.
 // Includes CIDR, domain, forward, and agent presence routes.
 func (f *Flooder) SendFullTable(peerID identity.AgentID) {
 	fullRoutes := f.routeMgr.GetFullRoutesForAdvertise(peerID)
@@ -661,43 +684,47 @@ func (f *Flooder) SendFullTable(peerID identity.AgentID) {
 	}
 
 	// Group CIDR routes by origin agent
-	byOrigin := make(map[identity.AgentID][]*routing.Route)
+	byOrigin := make(map[replayKey][]*routing.Route)
 	for _, route := range fullRoutes {
-		byOrigin[route.OriginAgent] = append(byOrigin[route.OriginAgent], route)
+		key := f.replayKeyFor(route.OriginAgent, route.Sequence, route.Path)
+		byOrigin[key] = append(byOrigin[key], route)
 	}
 
 	// Group agent presence routes by origin agent
-	agentByOrigin := make(map[identity.AgentID][]*routing.AgentRoute)
+	agentByOrigin := make(map[replayKey][]*routing.AgentRoute)
 	for _, route := range agentRoutes {
 		// Don't send routes learned from the peer we're sending to
 		if route.NextHop == peerID {
 			continue
 		}
-		agentByOrigin[route.OriginAgent] = append(agentByOrigin[route.OriginAgent], route)
+		key := f.replayKeyFor(route.OriginAgent, route.Sequence, route.Path)
+		agentByOrigin[key] = append(agentByOrigin[key], route)
 	}
 
 	// Group forward routes by origin agent
-	forwardByOrigin := make(map[identity.AgentID][]*routing.ForwardRoute)
+	forwardByOrigin := make(map[replayKey][]*routing.ForwardRoute)
 	for _, route := range forwardRoutes {
 		// Don't send routes learned from the peer we're sending to
 		if route.NextHop == peerID {
 			continue
 		}
-		forwardByOrigin[route.OriginAgent] = append(forwardByOrigin[route.OriginAgent], route)
+		key := f.replayKeyFor(route.OriginAgent, route.Sequence, route.Path)
+		forwardByOrigin[key] = append(forwardByOrigin[key], route)
 	}
 
 	// Group domain routes by origin agent
-	domainByOrigin := make(map[identity.AgentID][]*routing.DomainRoute)
+	domainByOrigin := make(map[replayKey][]*routing.DomainRoute)
 	for _, route := range domainRoutes {
 		// Don't send routes learned from the peer we're sending to
 		if route.NextHop == peerID {
 			continue
 		}
-		domainByOrigin[route.OriginAgent] = append(domainByOrigin[route.OriginAgent], route)
+		key := f.replayKeyFor(route.OriginAgent, route.Sequence, route.Path)
+		domainByOrigin[key] = append(domainByOrigin[key], route)
 	}
 
-	// Collect all origin agents
-	allOrigins := make(map[identity.AgentID]struct{})
+	// Collect all (origin, sequence, path) groups
+	allOrigins := make(map[replayKey]struct{})
 	for id := range byOrigin {
 		allOrigins[id] = struct{}{}
 	}
@@ -711,12 +738,14 @@ func (f *Flooder) SendFullTable(peerID identity.AgentID) {
 		allOrigins[id] = struct{}{}
 	}
 
-	// Send a separate advertisement for each origin
-	for originAgent := range allOrigins {
-		cidrRoutes := byOrigin[originAgent]
-		agentPresenceRoutes := agentByOrigin[originAgent]
-		forwardOriginRoutes := forwardByOrigin[originAgent]
-		domainOriginRoutes := domainByOrigin[originAgent]
+	// Send a separate advertisement for each group
+	for key := range allOrigins {
+		originAgent := key.origin
+
+		cidrRoutes := byOrigin[key]
+		agentPresenceRoutes := agentByOrigin[key]
+		forwardOriginRoutes := forwardByOrigin[key]
+		domainOriginRoutes := domainByOrigin[key]
 
 		routes := make([]protocol.Route, 0, len(cidrRoutes)+len(agentPresenceRoutes)+len(forwardOriginRoutes)+len(domainOriginRoutes))
 		for _, r := range cidrRoutes {
@@ -779,10 +808,16 @@ func (f *Flooder) SendFullTable(peerID identity.AgentID) {
 			}
 		}
 
-		// One advertisement per group that fits (see splitRoutes), each with
-		// its own sequence number.
+		// One advertisement per group that fits (see splitRoutes). Replayed
+		// routes keep the sequence number their origin gave them (a stored
+		// group came from one advertisement, so it fits and is not split
+		// again); this agent's own routes are numbered from its own counter,
+		// one number per advertisement.
 		for _, group := range splitRoutes(routes) {
-			seq := f.routeMgr.IncrementSequence()
+			seq := key.seq
+			if originAgent == f.localID {
+				seq = f.routeMgr.IncrementSequence()
+			}
 
 			adv := &protocol.RouteAdvertise{
 				OriginAgent:       originAgent,
